@@ -99,6 +99,228 @@ theorem C10_table_values {α β} (table : List (String × Nat)) (f : α → Outc
       · cases h
       · cases h
 
+/-- **nothing of the file is dropped, nothing is invented**: an accepted table binds exactly the codes named in the file,
+    each once; and an entry whose code no other entry of the table names is bound to the conversion of its own value -/
+theorem C10_table_complete {α β} (table : List (String × Nat)) (f : α → Outcome β) :
+    ∀ (l : List (String × α)) (r : List (Nat × β)), convTable table f l = .ok r →
+      (akeys r).Nodup ∧
+      (∀ c, c ∈ akeys r ↔ ∃ e ∈ l, keyToEvCode e.1 table = some c) ∧
+      (∀ e ∈ l, ∀ c, keyToEvCode e.1 table = some c →
+        (∀ e' ∈ l, keyToEvCode e'.1 table = some c → e' = e) → ∃ b, f e.2 = .ok b ∧ alookup c r = some b) := by
+  intro l
+  induction l with
+  | nil =>
+    intro r h
+    simp only [convTable, Outcome.ok.injEq] at h; subst h
+    exact ⟨by simp [akeys], by intro c; simp [akeys], by intro e he; cases he⟩
+  | cons e rest ih =>
+    intro r h
+    obtain ⟨k, v⟩ := e
+    simp only [convTable] at h
+    split at h
+    · cases h
+    · rename_i code hcode
+      split at h
+      · rename_i b hb
+        split at h
+        · rename_i l' hl'
+          simp only [Outcome.ok.injEq] at h; subst h
+          obtain ⟨i1, i2, i3⟩ := ih l' hl'
+          refine ⟨nodup_akeys_ainsert i1, ?_, ?_⟩
+          · intro c
+            rw [mem_akeys_ainsert, i2 c]
+            constructor
+            · rintro (⟨e, he, hc⟩ | rfl)
+              · exact ⟨e, List.mem_cons_of_mem _ he, hc⟩
+              · exact ⟨(k, v), List.mem_cons_self, hcode⟩
+            · rintro ⟨e, he, hc⟩
+              rcases List.mem_cons.mp he with rfl | he
+              · right
+                simp only at hc
+                rw [hcode] at hc
+                simpa using hc.symm
+              · exact Or.inl ⟨e, he, hc⟩
+          · intro e he c hc huniq
+            rcases List.mem_cons.mp he with rfl | he'
+            · simp only at hc
+              rw [hcode] at hc
+              simp only [Option.some.injEq] at hc; subst hc
+              exact ⟨b, hb, alookup_ainsert_self⟩
+            · by_cases hcc : c = code
+              · -- the head entry names the same code, so by uniqueness it is `e` itself (the same line twice)
+                subst hcc
+                have := huniq (k, v) List.mem_cons_self hcode
+                subst this
+                exact ⟨b, hb, alookup_ainsert_self⟩
+              · obtain ⟨b', hb', hl⟩ := i3 e he' c hc (fun e' he'' hc' => huniq e' (List.mem_cons_of_mem _ he'') hc')
+                exact ⟨b', hb', by rw [alookup_ainsert_ne hcc]; exact hl⟩
+        · cases h
+        · cases h
+      · cases h
+      · cases h
+
+/-! ### the key tables of a mapping, sub-handler by sub-handler -/
+
+/-- what one non-empty sub-handler table does to the mapping under construction -/
+def keysStep (acc : List ((Sub × Code) × Key)) (sub : Sub) (tmp : List (Nat × Key)) : List ((Sub × Code) × Key) :=
+  if tmp.isEmpty then acc else (acc.filter (fun p => p.1.1 ≠ sub)) ++ tmp.map (fun p => ((sub, p.1), p.2))
+
+theorem convKeysSubs_cons (k : TKeys) (r : List TKeys) (acc : List ((Sub × Code) × Key)) :
+    convKeysSubs (k :: r) acc =
+      match convTable Gen.kEYFromString convKey k.map with
+      | .ok tmp => convKeysSubs r (keysStep acc k.sub tmp)
+      | .err => .err
+      | .panic => .panic := by
+  simp only [convKeysSubs, keysStep]
+  cases convTable Gen.kEYFromString convKey k.map <;> rfl
+
+theorem alookup_filter_sub (acc : List ((Sub × Code) × Key)) (sub s : Sub) (c : Code) :
+    alookup (s, c) (acc.filter (fun p => p.1.1 ≠ sub)) = if s = sub then none else alookup (s, c) acc := by
+  induction acc with
+  | nil => simp [alookup]
+  | cons p r ih =>
+    obtain ⟨⟨s', c'⟩, v⟩ := p
+    simp only [List.filter_cons]
+    by_cases h1 : s' = sub
+    · subst h1
+      simp only [ne_eq, not_true_eq_false, decide_false, Bool.false_eq_true, if_false, ih]
+      by_cases h2 : s = s'
+      · simp [h2]
+      · have : ¬ ((s', c') = (s, c)) := by intro e; cases e; exact h2 rfl
+        simp [alookup, h2, this]
+    · simp only [ne_eq, h1, not_false_eq_true, decide_true, if_true]
+      unfold alookup
+      by_cases h3 : (s', c') = (s, c)
+      · cases h3; simp [h1]
+      · simp only [h3, if_false]; exact ih
+
+theorem alookup_map_sub (tmp : List (Nat × Key)) (sub s : Sub) (c : Code) :
+    alookup (s, c) (tmp.map (fun p => ((sub, p.1), p.2))) = if s = sub then alookup c tmp else none := by
+  induction tmp with
+  | nil => simp [alookup]
+  | cons p r ih =>
+    obtain ⟨c', v⟩ := p
+    simp only [List.map_cons]
+    unfold alookup
+    by_cases h1 : s = sub
+    · subst h1
+      by_cases h2 : c' = c
+      · subst h2; simp
+      · have : ¬ ((s, c') = (s, c)) := by intro e; cases e; exact h2 rfl
+        simp only [this, h2, if_false, if_true]
+        rw [ih]; simp
+    · have : ¬ ((sub, c') = (s, c)) := by intro e; cases e; exact h1 rfl
+      simp only [this, if_false, h1]
+      rw [ih]; simp [h1]
+
+theorem lookup_keysStep (acc : List ((Sub × Code) × Key)) (sub : Sub) (tmp : List (Nat × Key)) (s : Sub) (c : Code) :
+    alookup (s, c) (keysStep acc sub tmp) =
+      if tmp.isEmpty then alookup (s, c) acc else if s = sub then alookup c tmp else alookup (s, c) acc := by
+  unfold keysStep
+  by_cases he : tmp.isEmpty = true
+  · simp [he]
+  · simp only [he, if_false, Bool.false_eq_true]
+    rw [alookup_append, alookup_filter_sub, alookup_map_sub]
+    by_cases h1 : s = sub
+    · simp [h1]
+    · simp only [h1, if_false]
+      cases alookup (s, c) acc <;> rfl
+
+/-- all key tables of a mapping whose sub-handler names are pairwise distinct: each non-empty table ends up under its
+    sub-handler exactly as converted, and nothing else is added -/
+theorem convKeysSubs_spec : ∀ (ks : List TKeys) (acc midi : List ((Sub × Code) × Key)),
+    (ks.map (·.sub)).Nodup → convKeysSubs ks acc = .ok midi →
+      (∀ s c, s ∉ ks.map (·.sub) → alookup (s, c) midi = alookup (s, c) acc) ∧
+      (∀ k ∈ ks, ∃ tmp, convTable Gen.kEYFromString convKey k.map = .ok tmp ∧
+        (tmp.isEmpty = false → ∀ c, alookup (k.sub, c) midi = alookup c tmp) ∧
+        (tmp.isEmpty = true → ∀ c, alookup (k.sub, c) midi = alookup (k.sub, c) acc)) := by
+  intro ks
+  induction ks with
+  | nil =>
+    intro acc midi _ h
+    simp only [convKeysSubs, Outcome.ok.injEq] at h; subst h
+    exact ⟨fun _ _ _ => rfl, by intro k hk; cases hk⟩
+  | cons k r ih =>
+    intro acc midi hnd h
+    rw [convKeysSubs_cons] at h
+    simp only [List.map_cons, List.nodup_cons] at hnd
+    split at h
+    · rename_i tmp htmp
+      obtain ⟨i1, i2⟩ := ih _ _ hnd.2 h
+      constructor
+      · intro s c hs
+        simp only [List.map_cons, List.mem_cons, not_or] at hs
+        rw [i1 s c hs.2, lookup_keysStep]
+        simp [hs.1]
+      · intro k' hk'
+        rcases List.mem_cons.mp hk' with rfl | hk'
+        · refine ⟨tmp, htmp, ?_, ?_⟩
+          · intro hne c
+            rw [i1 k'.sub c hnd.1, lookup_keysStep]
+            simp [hne]
+          · intro he c
+            rw [i1 k'.sub c hnd.1, lookup_keysStep]
+            simp [he]
+        · obtain ⟨tmp', h1, h2, h3⟩ := i2 k' hk'
+          refine ⟨tmp', h1, h2, ?_⟩
+          intro he c
+          rw [h3 he c, lookup_keysStep]
+          have hne : k'.sub ≠ k.sub := by
+            intro e
+            apply hnd.1
+            rw [← e]
+            exact List.mem_map.mpr ⟨k', hk', rfl⟩
+          simp [hne]
+    · cases h
+    · cases h
+
+/-- **every key line of the file is in the accepted mapping**: in a mapping whose key tables have pairwise distinct
+    sub-handler names, a line `name = "note[,offset]"` of the table of sub-handler `sub`, whose key code no other line of
+    that table names, is bound under `(sub, code)` to exactly the conversion of its value -/
+theorem C10_mapping_keys_complete (ks : List TKeys) (midi : List ((Sub × Code) × Key))
+    (hnd : (ks.map (·.sub)).Nodup) (h : convKeysSubs ks [] = .ok midi)
+    (k : TKeys) (hk : k ∈ ks) (e : String × String) (he : e ∈ k.map) (c : Code)
+    (hc : keyToEvCode e.1 Gen.kEYFromString = some c)
+    (huniq : ∀ e' ∈ k.map, keyToEvCode e'.1 Gen.kEYFromString = some c → e' = e) :
+    ∃ key, convKey e.2 = .ok key ∧ alookup (k.sub, c) midi = some key := by
+  obtain ⟨-, i2⟩ := convKeysSubs_spec ks [] midi hnd h
+  obtain ⟨tmp, htmp, hne, -⟩ := i2 k hk
+  obtain ⟨-, t2, t3⟩ := C10_table_complete Gen.kEYFromString convKey k.map tmp htmp
+  obtain ⟨key, hkey, hl⟩ := t3 e he c hc huniq
+  have hnonempty : tmp.isEmpty = false := by
+    cases tmp with
+    | nil => simp [alookup] at hl
+    | cons _ _ => rfl
+  exact ⟨key, hkey, by rw [hne hnonempty c]; exact hl⟩
+
+/-- **and nothing else**: a binding `(sub, code) ↦ key` of the accepted mapping comes from a line of the table of that
+    sub-handler -/
+theorem C10_mapping_keys_sound (ks : List TKeys) (midi : List ((Sub × Code) × Key))
+    (hnd : (ks.map (·.sub)).Nodup) (h : convKeysSubs ks [] = .ok midi) (s : Sub) (c : Code) (key : Key)
+    (hl : alookup (s, c) midi = some key) :
+    ∃ k ∈ ks, k.sub = s ∧ ∃ e ∈ k.map, keyToEvCode e.1 Gen.kEYFromString = some c ∧ convKey e.2 = .ok key := by
+  obtain ⟨i1, i2⟩ := convKeysSubs_spec ks [] midi hnd h
+  by_cases hs : s ∈ ks.map (·.sub)
+  · obtain ⟨k, hk, rfl⟩ := List.mem_map.mp hs
+    obtain ⟨tmp, htmp, hne, hem⟩ := i2 k hk
+    cases hte : tmp.isEmpty with
+    | true => rw [hem hte c] at hl; simp [alookup] at hl
+    | false =>
+      rw [hne hte c] at hl
+      have hm : (c, key) ∈ tmp := by
+        clear hne hem htmp hte
+        induction tmp with
+        | nil => simp [alookup] at hl
+        | cons p r ih =>
+          obtain ⟨c', v⟩ := p
+          unfold alookup at hl
+          split at hl
+          · rename_i e; subst e; simp only [Option.some.injEq] at hl; subst hl; exact List.mem_cons_self
+          · exact List.mem_cons_of_mem _ (ih hl)
+      obtain ⟨kk, v, hmem, h2, h3⟩ := C10_table_values Gen.kEYFromString convKey k.map tmp htmp (c, key) hm
+      exact ⟨k, hk, rfl, (kk, v), hmem, h2, h3⟩
+  · rw [i1 s c hs] at hl; simp [alookup] at hl
+
 /-- a table with a key name that is not known, or a value the entry conversion rejects, is rejected as a whole -/
 theorem C10_table_rejects {α β} (table : List (String × Nat)) (f : α → Outcome β) (hf : ∀ a, f a ≠ .panic)
     (l : List (String × α)) (hbad : ∃ e ∈ l, keyToEvCode e.1 table = none ∨ f e.2 = .err) :
